@@ -343,8 +343,14 @@ def stream_loss_rules(fx, v, prop='C02', rid='R-DOM'):
             bad = None
             for pi, p in enumerate(op_paths(fx, f)):
                 for comp in p.entered('complete'):
-                    if comp.fn.cls == cls and ec_arg_class(p, p.arg(comp, 0)) == ('literal', 'try_again'):
+                    if comp.fn.cls != cls:
+                        continue
+                    if ec_arg_class(p, p.arg(comp, 0)) == ('literal', 'try_again'):
                         bad = 'path %d reports try_again although no reconnect was made' % pi
+                    # success is reported only where the transfer is known to have succeeded (a write error after a partial
+                    # delivery is an error, whatever the byte count)
+                    if ec_arg_class(p, p.arg(comp, 0))[0] == 'success' and not p.ec_success():
+                        bad = 'path %d reports success although the error code of the transfer was not found clear' % pi
             v.check(bad is None, rid, '%s::operator()(%s)%s:try_again-only-after-reconnect [%s]' % (cls, tag, f.inst()[:30], f.tu),
                     'the I/O continuation itself never reports try_again (only the reconnect continuation does)' if bad is None else bad,
                     key=prop + ':R-DOM:%s:try_again-without-reconnect' % cls, where=f.file)
